@@ -63,6 +63,7 @@ type gSchema struct {
 
 type profile struct {
 	pFail, pIll, pDir, pAlias, pFrag, pInline, pArgs, pAny, pBadCall, pNullObj float64
+	respread                                                                   bool // a fragment may be spread twice in one selection set
 	noWrongType                                                                bool // never put a node of another object type where a type is expected
 	maxDepth                                                                   int
 	defect                                                                     string // C10: inject one defect
@@ -119,7 +120,7 @@ func genSchema(r *rand.Rand) *gSchema {
 		sort.Ints(union.members)
 	}
 	composite := append([]int{}, objs...)
-	leafs := []int{10, 11, 12, 13, 30, 10, 11}
+	leafs := []int{10, 11, 12, 13, 30, 10, 11, 14}
 	if s.byID[31] != nil {
 		leafs = append(leafs, 31)
 	}
@@ -454,6 +455,10 @@ func genGraph(r *rand.Rand, s *gSchema, p *profile) *gGraph {
 				}
 				return sx.L("str", sx.A(r.Intn(9)))
 			case tt.leaf == "float":
+				if chance(r, 0.15) {
+					// whole numbers whose shortest text is in exponent form (1e+06 ... 1e+07), exact in 32 bits
+					return sx.L("int", sx.A((1+r.Intn(10))*1000000))
+				}
 				return sx.L("int", sx.A(r.Intn(100)))
 			default:
 				return sx.L("str", sx.A(r.Intn(9)))
@@ -735,6 +740,11 @@ func (d *docGen) sels(container int, depth int) []sx.S {
 			body := d.sels(ct, depth+1)
 			d.frags = append(d.frags, append(sx.L("frag", sx.A(name), sx.A(ct)), body...))
 			out = append(out, sx.L("fr", id, sx.A(name), dirs))
+			if d.p.respread && chance(r, 0.35) {
+				// the same fragment spread again in this selection set, under directives of its own
+				out = append(out, sx.L("fr", d.id(), sx.A(name), d.dirs()))
+				d.feats["fragment-spread-twice"] = true
+			}
 		default:
 			ft := t
 			if t.kind == "union" || t.kind == "iface" {
@@ -1246,7 +1256,7 @@ func genArgsAcrossTypes(r *rand.Rand, id string, calls int) Case {
 
 var profC06 = profile{pFail: 0.22, pIll: 0.1, pDir: 0.1, pAlias: 0.3, pFrag: 0.12, pInline: 0.12, pArgs: 0.8, pAny: 0.5, pBadCall: 0.05, pNullObj: 0.05, maxDepth: 4, calls: 1}
 var profC08 = profile{pFail: 0.03, pIll: 0.01, pDir: 0.1, pAlias: 0.25, pFrag: 0.15, pInline: 0.3, pArgs: 0.8, pAny: 0.4, pBadCall: 0.0, pNullObj: 0.05, maxDepth: 4, calls: 1}
-var profC09 = profile{pFail: 0.03, pIll: 0.01, pDir: 0.6, pAlias: 0.25, pFrag: 0.12, pInline: 0.15, pArgs: 0.8, pAny: 0.3, pBadCall: 0.0, pNullObj: 0.05, maxDepth: 4, calls: 1}
+var profC09 = profile{respread: true, pFail: 0.03, pIll: 0.01, pDir: 0.6, pAlias: 0.25, pFrag: 0.12, pInline: 0.15, pArgs: 0.8, pAny: 0.3, pBadCall: 0.0, pNullObj: 0.05, maxDepth: 4, calls: 1}
 var profC11 = profile{pFail: 0.05, pIll: 0.02, pDir: 0.3, pAlias: 0.3, pFrag: 0.1, pInline: 0.12, pArgs: 0.9, pAny: 0.4, pBadCall: 0.1, pNullObj: 0.1, maxDepth: 4, calls: 8}
 
 func init() {
